@@ -10,6 +10,7 @@
    Scope: no ECH (c.serverName = Config.ServerName when ECH is accepted is outside the model), no QUIC, no renegotiation;
    key agreement, signatures and Finished are abstract (the flight's f_crypto_ok bit; the secrets are arguments). *)
 From UV Require Import Base.Common Model.Negotiate Proofs.NegotiateP Model.Transcript Proofs.TranscriptP.
+From UV Require Model.Complete.
 
 (* For EVERY hash function and every flight shape - with or without HelloRetryRequest, resumed or not, with or
    without CertificateRequest / client CertificateVerify / client EncryptedExtensions (ALPS), the server certificate
@@ -41,15 +42,28 @@ Theorem C11_ekm_equal_tls12 : forall H master12 ekm12 pre s m label ctx n,
 Proof. exact ekm12_equal. Qed.
 Print Assumptions C11_ekm_equal_tls12.
 
-(* For EVERY environment, client view and server flight: if the client completes, the version, cipher suite, group
-   (TLS 1.3 key_share group / TLS 1.2 ServerKeyExchange curve), negotiated protocol and "resumed" it reports are the
-   values the server's own messages carry - i.e. what the server reports. *)
-Theorem C11_params : forall e v fl cs, client_run_gen e v fl = Complete cs ->
+(* For EVERY environment, client view, set of retained key-share private keys and server flight: if the client completes,
+   the version, cipher suite, group (TLS 1.3 key_share group / TLS 1.2 ServerKeyExchange curve), negotiated protocol and
+   "resumed" it reports are the values the server's own messages carry - i.e. what the server reports.
+   Complete.client_run10 fixed is UConn.clientHandshake's decision with establishHandshakeKeys' key selection:
+   fixed = true is the code with fixes/C18-keyshare-private-keys.diff (the key for the server share's group is the one
+   ApplyPreset generated for that group: Ecdhe, ExtraEcdhe, MlkemEcdhe), fixed = false the code before it (always Ecdhe);
+   the statement holds for both - the repair changes WHICH flights complete (a Firefox-type hello with shares [X25519; P-256]
+   now completes on P-256), never what a completed client reports. *)
+Theorem C11_params : forall fixed e v ks fl cs, Complete.client_run10 fixed e v ks fl = Complete cs ->
+  let ss := server_state fl in
+  cs_vers cs = ss_vers ss /\ cs_suite cs = ss_suite ss /\ cs_group cs = ss_group ss /\
+  cs_alpn cs = ss_alpn ss /\ cs_psk cs = ss_resumed ss.
+Proof. exact params_agree10. Qed.
+Print Assumptions C11_params.
+
+(* the same for the negotiation core alone (the view's single ecdhe curve; what C12/C13 reason about) *)
+Theorem C11_params_core : forall e v fl cs, client_run_gen e v fl = Complete cs ->
   let ss := server_state fl in
   cs_vers cs = ss_vers ss /\ cs_suite cs = ss_suite ss /\ cs_group cs = ss_group ss /\
   cs_alpn cs = ss_alpn ss /\ cs_psk cs = ss_resumed ss.
 Proof. exact params_agree. Qed.
-Print Assumptions C11_params.
+Print Assumptions C11_params_core.
 
 (* Server name, full statement: the client reports the SNI actually on the wire (which is what the server reports),
    empty if none - for every hostnameInSNI function, Config.ServerName and extension list with at most one SNI extension
@@ -84,6 +98,19 @@ Definition ex_flight : flight :=
 Example C11_ex_complete : client_run ex_view ex_flight = Complete (mkState 772 4865 23 [104; 50] true false)
   /\ server_state ex_flight = mkSrv 772 4865 23 [104; 50] false.
 Proof. vm_compute. split; reflexivity. Qed.
+
+(* two key shares [X25519; P-256], server selects the second: aborts before the C18 repair, completes after it,
+   with the server's values *)
+Definition ex_view2 : client_view :=
+  mkView [4865; 4866] [29; 23] [29; 23] [[104; 50]] [1; 2; 3] 0 [] false 771 772 false 29 false [772; 771] 0.
+Definition ex_flight2 : flight :=
+  mkFlight None (mkHello 771 772 0 [1; 2; 3] 4865 0 23 0 false None []) [104; 50] None None true.
+Example C11_ex_second_share :
+  Complete.client_run10 true env_fixed ex_view2 (KeyShare.mkShape 29 [23] false 0) ex_flight2
+    = Complete (mkState 772 4865 23 [104; 50] false false)
+  /\ Complete.client_run10 false env_fixed ex_view2 (KeyShare.mkShape 29 [] false 0) ex_flight2 = Abort a_illegal_parameter
+  /\ server_state ex_flight2 = mkSrv 772 4865 23 [104; 50] false.
+Proof. vm_compute. repeat split. Qed.
 
 (* F-11 witness evaluated: identity hostnameInSNI, one non-SNI extension *)
 Example C11_ex_f11 :
